@@ -211,3 +211,12 @@ func odIn(alphabet string, s string) bool {
 	}
 	return true
 }
+
+func odHash(s string) uint64 {
+	h := uint64(1469598103934665603)
+	for i := 0; i < len(s); i++ {
+		h = (h ^ uint64(s[i])) * 1099511628211
+	}
+	return h
+}
+
